@@ -1,5 +1,5 @@
 (* C17 — theorems (statements are the *_stmt definitions of Proofs.v / ProofsAlloc.v). *)
-From C17 Require Import Model Proofs ProofsAlloc ProofsFrame ProofsContents ProofsRC ProofsSizes ProofsPool ProofsLedger ProofsFinal.
+From C17 Require Import Model Proofs ProofsAlloc ProofsFrame ProofsContents ProofsRC ProofsSizes ProofsPool ProofsLedger ProofsFinal ProofsRefused.
 
 Theorem Inv_init : Inv_init_stmt.
 Proof. exact Inv_init_proof. Qed.
@@ -146,3 +146,19 @@ Print Assumptions Linked_step.
 Theorem Array0_pool_balance : Array0_pool_stmt.
 Proof. exact Array0_pool_proof. Qed.
 Print Assumptions Array0_pool_balance.
+
+(* error paths: a request the block allocator refuses (GivError) anywhere in a sequence.  reallocate / resize / push_back / copy / operator= /
+   reserve: nothing has changed; allocate / constructors: the target is the empty handle (it gave up its storage as destroy() does; `_psz = _size = s`
+   is the LAST statement of allocate()); every other handle keeps fields and contents; the invariant holds (the handle stays usable and destructible) *)
+Theorem Refused_request_leaves_handles_consistent : Refused_request_stmt.
+Proof. exact Refused_request_proof. Qed.
+Print Assumptions Refused_request_leaves_handles_consistent.
+
+Theorem Inv_run_with_refused_requests : Inv_run_x_stmt.
+Proof. exact Inv_run_x_proof. Qed.
+Print Assumptions Inv_run_with_refused_requests.
+
+(* the statement order of seeded change C17-m9 (sizes committed before the request) does NOT have the property above *)
+Theorem Allocate_early_commit_refuted : Allocate_early_commit_refuted_stmt.
+Proof. exact Allocate_early_commit_refuted_proof. Qed.
+Print Assumptions Allocate_early_commit_refuted.
